@@ -261,8 +261,8 @@ def standard_run(ctx, spec):
                 nmis += 1
             state["found"] = True
             short = {kk: (vv if len(str(vv)) < 400 else str(vv)[:400] + "...") for kk, vv in flat.items()}
-            vf.violation(ctx, {"group": c["group"], "case": flat, "model": m, "observed": c["observed"], "why": why, "kind": k,
-                               "seed": seed, "tier": tier,
+            vf.violation(ctx, {"group": c["group"], "index": c["index"], "case": flat, "model": m, "observed": c["observed"], "why": why, "kind": k,
+                               "seed": seed, "tier": tier, "n": n,
                                "replay_cmd": "echo '%s %s %s' | build/mb_%s/%s_runner   # model; the implementation's answer is in 'observed'" % (c["id"], c["op"], c["args"], pid.lower(), pid.lower())},
                          True, "%s %s: %s" % (c["group"], c["op"], why), tag + "-%s%d" % (c["group"], c["index"]))
         if spec.get("post"):
@@ -298,3 +298,41 @@ def standard_run(ctx, spec):
         vf.violation(ctx, {"no_longer_checks": [{"kind": k, "detail": d} for k, d in broke],
                            "note": "no concrete failing input was found by the search; the property is no longer shown to hold"},
                      False, what, "-broken")
+
+
+def replay(ctx, spec, path):
+    """./check Cxx --replay <file>: regenerate the stored case from its seed (the harness is
+    deterministic), run it through the implementation and the model again, print both."""
+    import json
+    rp = json.load(open(path))
+    if "group" not in rp or "index" not in rp:
+        print("replay file holds no concrete case (%s)" % rp.get("summary", ""))
+        return 1
+    runner, blog = build_runner(ctx.pid, spec["model_vos"])
+    ok, out = vf.build_harness(spec["cmd"])
+    if runner is None or not ok:
+        print("cannot build runner/harness: " + (blog if runner is None else out)[-500:])
+        return 1
+    base = os.path.join(vf.BUILD, "replay_%s_%d" % (ctx.pid, os.getpid()))
+    rc, hout = vf.harness(spec["cmd"], ["-seed", rp["seed"], "-tier", rp["tier"], "-n", rp.get("n", spec["budget"][0]),
+                                        "-out", base + ".txt", "-json", base + ".json"])
+    if rc != 0:
+        print("harness failed: " + hout[-500:])
+        return 1
+    cid = "%s:%d" % (rp["group"], rp["index"])
+    cs = [c for c in read_cases(base + ".txt") if c["id"] == cid]
+    for f in (base + ".txt", base + ".json", base + ".txt.v"):
+        try:
+            os.remove(f)
+        except OSError:
+            pass
+    if not cs:
+        print("case %s not regenerated (seed %s tier %s)" % (cid, rp["seed"], rp["tier"]))
+        return 1
+    c = cs[0]
+    outs, _, err = run_model(runner, [(c["id"], c["op"] + " " + c["args"])])
+    print("case           : %s %s %s" % (c["id"], c["op"], c["args"]))
+    print("implementation : %s" % c["observed"])
+    print("model          : %s" % (outs.get(c["id"]) if not err else err))
+    print("recorded       : implementation %s | model %s" % (rp.get("observed"), rp.get("model")))
+    return 0 if outs.get(c["id"]) == c["observed"] else 1
